@@ -26,6 +26,12 @@ func nonNeg(v ssa.Value, seen map[ssa.Value]bool) bool {
 		return true
 	}
 	seen[v] = true
+	if b, ok := v.Type().Underlying().(*types.Basic); ok && b.Info()&types.IsUnsigned != 0 {
+		return true
+	}
+	if first, step, ok := loopIndex(v); ok && first >= 0 && step >= 0 {
+		return true
+	}
 	switch x := v.(type) {
 	case *ssa.Const:
 		c, ok := constInt(x)
@@ -225,6 +231,7 @@ func c16(c *Ctx) {
 	r.Floor("C16.R1", 20)
 	r.Floor("C16.R2", 5)
 	r.Floor("C16.R4", 4)
+	r.Floor("C16.R5", 4)
 	dec := p.Fn(x86Pkg, "Decode")
 	if dec == nil {
 		r.Und("C16.R1", "x86asm.Decode", "", "not found")
@@ -274,6 +281,98 @@ func c16(c *Ctx) {
 			}
 		})
 		r.Check(okLen, "C16.R1", shortName(impl)+" reports a non-negative length", p.Pos(impl.Pos()), "Len is assigned position values only", "Inst.Len is assigned a value that is not a (non-negative, growing) read position")
+	}
+	// ---- R5 the PC-relative field description is a snapshot taken where the field was read
+	if impl != nil {
+		var srcP *ssa.Parameter
+		for _, prm := range impl.Params {
+			if sl, ok := prm.Type().Underlying().(*types.Slice); ok && isByte(sl.Elem()) {
+				srcP = prm
+			}
+		}
+		readPos := map[ssa.Value]bool{}
+		eachInstr(impl, func(i ssa.Instruction) {
+			switch x := i.(type) {
+			case *ssa.IndexAddr:
+				if rootedAt(x.X, srcP, map[ssa.Value]bool{}) {
+					readPos[x.Index] = true
+				}
+			case *ssa.Slice:
+				if x.Low != nil && rootedAt(x.X, srcP, map[ssa.Value]bool{}) {
+					readPos[x.Low] = true
+				}
+			}
+		})
+		leaves := func(v ssa.Value) []ssa.Value {
+			var out []ssa.Value
+			seen := map[ssa.Value]bool{}
+			var walk func(v ssa.Value)
+			walk = func(v ssa.Value) {
+				if seen[v] {
+					return
+				}
+				seen[v] = true
+				if readPos[v] {
+					out = append(out, v)
+					return
+				}
+				if ph, ok := v.(*ssa.Phi); ok {
+					for _, e := range ph.Edges {
+						walk(e)
+					}
+					return
+				}
+				out = append(out, v)
+			}
+			walk(v)
+			return out
+		}
+		nOff, nW := 0, 0
+		eachInstr(impl, func(i ssa.Instruction) {
+			st, ok := i.(*ssa.Store)
+			if !ok {
+				return
+			}
+			fa, ok := st.Addr.(*ssa.FieldAddr)
+			if !ok {
+				return
+			}
+			fv := fieldVar(fa.X.Type(), fa.Field)
+			if fv == nil {
+				return
+			}
+			switch fv.Name() {
+			case "PCRelOff":
+				nOff++
+				okAll := true
+				bad := ""
+				for _, lf := range leaves(st.Val) {
+					if c, ok := constInt(lf); ok && c == 0 {
+						continue
+					}
+					if readPos[lf] {
+						continue
+					}
+					okAll = false
+					bad = lf.String()
+				}
+				r.Check(okAll, "C16.R5", fmt.Sprintf("PCRelOff store #%d is a read-position snapshot", nOff), p.Pos(posOf(st)), "offset = the position at which the PC-relative field was read",
+					"Inst.PCRelOff is computed ("+bad+") instead of being the position recorded when the PC-relative field was read: when an immediate follows the displacement the reported field position is off, and relocation patches the wrong bytes")
+			case "PCRel":
+				nW++
+				okAll := true
+				for _, lf := range leaves(st.Val) {
+					c, ok := constInt(lf)
+					if !ok || !(c == 0 || c == 1 || c == 2 || c == 4) {
+						okAll = false
+					}
+				}
+				r.Check(okAll, "C16.R5", fmt.Sprintf("PCRel store #%d is a field width", nW), p.Pos(posOf(st)), "width ∈ {1,2,4}", "Inst.PCRel is not one of the field widths 1, 2, 4 that were actually read")
+			}
+		})
+		if nOff == 0 {
+			r.Bad("C16.R5", "PCRelOff stores", p.Pos(impl.Pos()), "the decoder never records the position of a PC-relative field")
+		}
 	}
 	// ---- R2
 	c16Table(p, r)
